@@ -4,7 +4,11 @@
 
 package trend
 
-import "github.com/cinar/indicator/v2/helper"
+import (
+	"math"
+
+	"github.com/cinar/indicator/v2/helper"
+)
 
 // MovingSum represents the configuration parameters for calculating the Moving Sum over the specified period.
 //
@@ -37,8 +41,29 @@ func (m *MovingSum[T]) Compute(c <-chan T) <-chan T {
 
 	sum := T(0)
 
+	// Non-finite values (NaN, Inf) are kept out of the running sum and counted instead, so
+	// that the sum recovers once they have left the window.
+	nonFinite := 0
+	var lastNonFinite T
+
 	sums := helper.Operate(cs[0], cs[1], func(c, b T) T {
-		sum = sum + c - b
+		if isFinite(c) {
+			sum = sum + c
+		} else {
+			nonFinite++
+			lastNonFinite = c
+		}
+
+		if isFinite(b) {
+			sum = sum - b
+		} else {
+			nonFinite--
+		}
+
+		if nonFinite > 0 {
+			return sum + lastNonFinite
+		}
+
 		return sum
 	})
 
@@ -48,4 +73,10 @@ func (m *MovingSum[T]) Compute(c <-chan T) <-chan T {
 // IdlePeriod is the initial period that Moving Sum won't yield any results.
 func (m *MovingSum[T]) IdlePeriod() int {
 	return m.Period - 1
+}
+
+// isFinite reports whether the value is neither NaN nor an infinity.
+func isFinite[T helper.Number](value T) bool {
+	f := float64(value)
+	return !math.IsNaN(f) && !math.IsInf(f, 0)
 }
